@@ -5,6 +5,7 @@ CONSTANTS
   Frag = TRUE
   HoldMutex = TRUE
   CloseC = TRUE
+  Tampers = 0
   Recheck = TRUE
 INIT MCInit
 NEXT MCNext
